@@ -591,7 +591,7 @@ fn with_db<T>(f: impl FnOnce(&mut Db) -> T) -> Result<T, String> {
 }
 
 pub fn classify_tags(tags: &[&'static str], listed: &[String]) -> Option<String> {
-    let map: BTreeMap<&str, &str> = [("right-join", "KF-right-join-drops-unmatched"), ("three-way", "KF-three-way-explicit-join")].into_iter().collect();
+    let map: BTreeMap<&str, &str> = [("right-join", "KF-right-join-drops-unmatched")].into_iter().collect();
     for t in tags {
         if let Some(id) = map.get(t) {
             if listed.iter().any(|l| l == id) {
